@@ -137,3 +137,62 @@ Definition wf_fib (shape : option Z) (a : zfib) : bool :=
      | Some n => Z.leb 0 n && forallb (fun cv => Z.ltb (fst cv) n) a
      | None => true
      end.
+
+(* ------------------------------------------------------------------ fibers as objects with a
+   declared shape and an active range (round 2).
+
+   Fiber._active_range (fiber.py setActive/getActive): None, or an explicit (lo, hi).  It is set by
+   the constructor argument active_range=, by the split methods, and — the case that matters for
+   C11 — by the populate iterator: `self << other` starts with
+   self.setActive(other.getActive()) (iterators.py __lshift__), so `a += b` leaves a with b's
+   active range.  None of Fiber.__add__/__radd__/__iadd__/__mul__/__rmul__/__imul__ reads the
+   active range: the scalar forms walk iterShape()/iterShapeRef() = range(0, shape) and the
+   stored elements; the model below therefore carries the field only as state. *)
+Definition arange := option (Z * Z).
+Record afib := { af_shape : option Z; af_active : arange; af_elems : zfib }.
+
+(* Fiber.getActive(): the explicit range, else (0, shape) with the declared or estimated shape *)
+Definition get_active (f : afib) : Z * Z :=
+  match af_active f with
+  | Some r => r
+  | None => (0, eff_shape (af_shape f) (af_elems f))
+  end.
+
+(* in-place forms: same object, same rank attributes *)
+Definition st_iadd_fiber (a b : afib) : afib :=
+  {| af_shape := af_shape a; af_active := Some (get_active b);      (* setActive(other.getActive()) *)
+     af_elems := fiadd (af_elems a) (af_elems b) |}.
+Definition st_imul_fiber (a b : afib) : afib :=
+  {| af_shape := af_shape a; af_active := af_active a; af_elems := fimul (af_elems a) (af_elems b) |}.
+Definition st_iadd_scalar (a : afib) (s : Z) : afib :=
+  {| af_shape := af_shape a; af_active := af_active a;
+     af_elems := fiadd_scalar (af_shape a) (af_elems a) s |}.
+Definition st_imul_scalar (a : afib) (s : Z) : afib :=
+  {| af_shape := af_shape a; af_active := af_active a; af_elems := fimul_scalar (af_elems a) s |}.
+
+(* value-returning forms: _newFiber(coords, payloads) — the operand's declared shape, no active range *)
+Definition st_add_fiber (a b : afib) : afib :=
+  {| af_shape := af_shape a; af_active := None; af_elems := fadd (af_elems a) (af_elems b) |}.
+Definition st_mul_fiber (a b : afib) : afib :=
+  {| af_shape := af_shape a; af_active := None; af_elems := fmul (af_elems a) (af_elems b) |}.
+Definition st_add_scalar (a : afib) (s : Z) : afib :=
+  {| af_shape := af_shape a; af_active := None; af_elems := fadd_scalar (af_shape a) (af_elems a) s |}.
+Definition st_mul_scalar (a : afib) (s : Z) : afib :=
+  {| af_shape := af_shape a; af_active := None; af_elems := fmul_scalar (af_elems a) s |}.
+
+(* an optional first step of a two-step history: a += c (false) or a *= c (true) *)
+Definition hist_step (pre : option (bool * afib)) (a : afib) : afib :=
+  match pre with
+  | None => a
+  | Some (false, c) => st_iadd_fiber a c
+  | Some (true, c) => st_imul_fiber a c
+  end.
+
+(* the coordinates of c lie inside a declared shape *)
+Definition within (shape : option Z) (c : zfib) : bool :=
+  match shape with
+  | Some n => forallb (fun cv => Z.ltb (fst cv) n) c
+  | None => true
+  end.
+
+Definition wf_afib (f : afib) : bool := wf_fib (af_shape f) (af_elems f).
